@@ -377,6 +377,13 @@ def clean(case):
 
 
 # ---- BEGIN sndk leg: the TCP sender as processes on the kernel MODEL (lean/OnlVerif/Tcp/SenderOnK.lean, driver mode `sndk`) ----
+ASSUMPTIONS.append('the sender process on the real kernel refines the sender LTS: checked by replay (labels from taps and public snapshots); for the '
+                   'sender written as processes on the kernel MODEL (run, put, timeout_callback, resend_packet, one Timer process per segment, a '
+                   'network-script process) it is a theorem (Props/C16K.lean: every kernel step is an accepted LTS action sequence, no step crashes; '
+                   'finite flow size = n*mss, Reno or CUBIC, ACKs not stamped in the future), and that program is compared bit for bit with the '
+                   'real TCPPacketGenerator under ACK scripts (sndk leg)')
+
+
 def run_sndk(ctx, res=None):
     """Extra leg for Props/C16K.lean: the K program of the TCP sender (run / put / timeout_callback / resend_packet, one Timer
     process per segment, a network-script process delivering ACKs into put), run at Float by the compiled driver, against the
